@@ -16,10 +16,20 @@ MANIFEST = dict(
           "closest-model read never aliases another task's store, first argmin of the mean validation error). 24 integer kernels are re-translated from src/tuner*.cpp and "
           "src/machine/{tune,result}.cpp on every run. The extracted model must reproduce every observed run of the real tuners "
           "(callback batches, outcome, steps; acceptor search over tie-breaks/proposals) and of ml::tune under its thread pool; the "
-          "property's own oracle runs on the implementation and yields a replayable case."),
-    note=("Coq kernel; translator (24 kernels); extraction (ExtrOcamlBasic); harness + OCaml driver (acceptor search is unverified, its "
+          "property's own oracle runs on the implementation and yields a replayable case. Extension (stage SURR): the arithmetic around "
+          "the quadratic surrogate is in the model over Q -- coefficient walk of quadratic_surrogate_t / quadratic_surrogate_fit_t "
+          "((d+1)(d+2)/2 coefficients, index of (i,j) a bijection onto [d+1, (d+1)(d+2)/2), value = coefficients . features), the returned "
+          "gradients are the derivatives (exact expansions), the fit objective is convex as declared, closest_grid_point_from_surrogate is "
+          "always a grid index and the first argmin of |x - t_k|, linear to/from_surrogate are inverse and monotone; hence every proposal of "
+          "the surrogate tuner is a grid point whatever the inner solver returned, and grid-only / no-repeat / bound / sortedness / "
+          "non-finite rejection hold with the inner solver's answer as the only oracle (also for the binary64 twin that replays real runs "
+          "bit for bit from the answers recorded at the solver_t::done hook). 18 more kernels (loop starts/conditions, k counters, sizes, the "
+          "`distance < min_distance` decision) are re-translated from surrogate.cpp / space.cpp."),
+    note=("Coq kernel; translator (42 kernels); extraction (ExtrOcamlBasic); harness + OCaml driver (acceptor search is unverified, its "
           "verdict is one run of the verified optimize_pick); std::sort and the surrogate solver are oracles constrained by their "
-          "contracts; thread interleavings of ml::tune are sampled (real pool), their irrelevance is proved for atomic stores."),
+          "contracts; thread interleavings of ml::tune are sampled (real pool), their irrelevance is proved for atomic stores. Stage SURR: "
+          "the inner LBFGS answer stays an oracle (observed through the NANO_VERIF solver_t::done hook); std::log10 is not modelled (grid images "
+          "come from the run); Q = binary64 only on the generated dyadic inputs; ExtrOCamlFloats/PrimFloat for the binary64 twin."),
     technique="Coq proof over a translated+extracted model, acceptor-style differential correspondence, direct property oracle",
     design="DESIGN.md section 2, C13")
 
@@ -30,7 +40,7 @@ HARNESS = "c13_tuner"
 
 def setup():
     vlib.build_harness(HARNESS, "rel", need_lib=True)
-    vlib.build_ocaml("c13_driver", "c13_model.ml", "c13_driver.ml")
+    vlib.build_ocaml("c13_driver", "c13_model.ml", "c13_driver.ml", floats=True)
 
 
 def _case_of(line):
@@ -71,8 +81,8 @@ def run(tier, replay=None):
     lines = [l for l in out.split("\n") if l]
     done = [l for l in lines if l.startswith("DONE ")]
     impl_fail = [l for l in lines if l.startswith("FAIL ")]
-    ops = collections.Counter(l.split(" ", 1)[0] for l in lines if l.split(" ", 1)[0] in ("LS", "OPT", "TUNE", "FAIL", "DONE"))
-    oplines = [l for l in lines if l.startswith(("LS ", "OPT ", "TUNE "))]
+    ops = collections.Counter(l.split(" ", 1)[0] for l in lines if l.split(" ", 1)[0] in ("LS", "OPT", "TUNE", "SGV", "SGF", "MAP", "FAIL", "DONE"))
+    oplines = [l for l in lines if l.startswith(("LS ", "OPT ", "TUNE ", "SGV ", "SGF ", "MAP "))]
     replay_cmd = "VERIF_SEED=%d %s %s <case>" % (r.seed, exe, htier)
     if rc != 0 or not done:
         r.violation("crash", {"kind": "implementation crash / abnormal exit of the harness", "exit": rc, "tier": htier,
@@ -96,7 +106,7 @@ def run(tier, replay=None):
     mism, checked, dstat = [], 0, {}
     drv = None
     try:
-        drv = vlib.build_ocaml("c13_driver", "c13_model.ml", "c13_driver.ml")
+        drv = vlib.build_ocaml("c13_driver", "c13_model.ml", "c13_driver.ml", floats=True)
     except (vlib.CheckError, OSError):
         if cres["ok"]:
             raise
@@ -121,8 +131,10 @@ def run(tier, replay=None):
                         no_input=(case not in failed_cases))
     vlib.handle_coq_failure(r, cres)
     vlib.proof_coverage(r, cres, "make -C coq theories/Properties_C13.vo && coqc theories/Properties_C13.v (Print Assumptions)",
-                        ["tools/translate.py (24 kernels of src/tuner.cpp, src/tuner/{util,local,surrogate}.cpp, src/machine/{tune,result}.cpp)",
-                         "extraction: ExtrOcamlBasic only; Z/nat/positive extracted as inductives",
+                        ["tools/translate.py (42 kernels of src/tuner.cpp, src/tuner/{util,local,surrogate,space}.cpp, src/machine/{tune,result}.cpp)",
+                         "extraction: ExtrOcamlBasic, Z/nat/positive/Q extracted as inductives; ExtrOCamlFloats for the binary64 twin of the grid mapping",
+                         "stage SURR: the NANO_VERIF solver_t::done hook (object = the solver state) as the observation of the inner solver's answer; "
+                         "Z.sqrt for the truncated sqrt of the (exactly representable) 2 * size",
                          "ocaml/c13_driver.ml (acceptor search; verdict = one run of the extracted optimize_pick), harness/c13_tuner.cpp",
                          "std::sort returns a sorted permutation (contract, hypothesis of the theorems); order-preserving double -> Z key map"])
     cov = r.coverage
@@ -139,6 +151,10 @@ def run(tier, replay=None):
             return l.split(" | ")[1].count(";") >= 2            # at least three callback batches
         if l.startswith("TUNE "):
             return "," in l.split(" | ")[1]                     # at least two batches of trials
+        if l.startswith(("SGV ", "SGF ")):
+            return int(l.split()[2]) >= 2                       # at least one cross term i < j
+        if l.startswith("MAP "):
+            return l.split(" | ")[1].count(",") >= 2            # at least three grid values
         return False
 
     def strip_case(l):
@@ -149,17 +165,34 @@ def run(tier, replay=None):
                    "a table landscape (bowl, plateau, few values, tie-free, constant, ramp, two basins, extremes, ridge, cap, checker, optional "
                    "NaN/inf), max_evals 10..1000; TUNE = one ml::tune run (0..2 grids, 2..10 folds, k-fold/random splitter, real thread pool). "
                    "distinct = different line after removing the case id; non-trivial = LS with >1 point, OPT with >=3 callback batches, "
-                   "TUNE with >=2 batches")
+                   "TUNE with >=2 batches; stage SURR: SGV/SGF = quadratic_surrogate_t / quadratic_surrogate_fit_t on small dyadic inputs (d 1..7, "
+                   "non-trivial: d >= 2), MAP = param_space_t mapping functions on linear/log10 grids with queries at images, exact midpoints "
+                   "(ties), near midpoints, inside, outside, far outside (non-trivial: >= 3 grid values); surrogate OPT lines carry the recorded "
+                   "inner-solver answers")
     cov["op_histogram"] = dict(ops)
     cov["harness_counters"] = {k: int(v) for k, v in dd.items()}
     cov["acceptor"] = {k: int(v) for k, v in dstat.items()}
     cov["mismatches"] = len(mism)
     cov["impl_direct_failures"] = len(impl_fail)
     cov["samples"] = [l[:600] for l in ([x for x in oplines if x.startswith("LS ")][:2] + [x for x in oplines if x.startswith("OPT ")][:2]
-                                         + [x for x in oplines if x.startswith("TUNE ")][:1])]
+                                         + [x for x in oplines if x.startswith("TUNE ")][:1] + [x for x in oplines if x.startswith("SGV ")][:1]
+                                         + [x for x in oplines if x.startswith("SGF ")][:1] + [x for x in oplines if x.startswith("MAP ")][:2]
+                                         + [x for x in oplines if re.match(r"OPT case=\d+ S", x)][:1])]
+    cov["stage_SURR"] = {"lines_SGV_SGF_MAP": int(dstat.get("surr_lines", 0)),
+                         "surrogate_runs_replayed_with_recorded_answers": int(dstat.get("surr_runs_replayed", 0)),
+                         "inner_solver_answers_recorded": int(dd.get("surr_answers", 0)),
+                         "answers_where_exact_rational_and_binary64_proposals_were_compared": int(dstat.get("surr_answers_exact_rational_agree", 0)),
+                         "MAP_rounding_near_ties_tolerated_for_the_exact_rational_model": int(dstat.get("surr_near_ties", 0)),
+                         "MAP_exact_ties": int(dd.get("map_exact_ties", 0)), "MAP_log10_spaces": int(dd.get("map_log", 0))}
     cov["exhaustive"] = False
     cov["unproved_clauses_searched"] = [
-        "the surrogate tuner's proposals (floating-point solver) are an oracle of the model: searched by the acceptor on every surrogate run",
+        "the vector returned by the inner LBFGS solver (fit + minimisation of the surrogate) is the remaining oracle of the surrogate tuner: "
+        "it is recorded at the NANO_VERIF solver_t::done hook and the proposal is recomputed from it by the extracted binary64 twin "
+        "(the tie-breaks of std::sort are still searched by the acceptor)",
+        "log10 spaces: std::log10 is not modelled; the images of the grid values are taken from the run (to_surrogate of the library) "
+        "and cross-checked against the harness's own std::log10",
+        "the exact-rational closest-point model agrees with the code only where the rounding of |x - t| cannot matter "
+        "(near-ties and |x| >= 2^60 are excluded from that comparison; the binary64 twin is compared on everything)",
         "m_param of each returned step equals the grid values at m_igrid and callback parameters lie on the grid (map_to_grid): "
         "implementation-side oracle only",
         "ml::tune passes that fold's (train, valid) indices from the splitter, stores the callback's statistics/extra under (trial, fold), "
@@ -170,5 +203,7 @@ def run(tier, replay=None):
                      "the tuner callback returns one value per row (callback contract)",
                      "values are compared through an order-preserving map of finite doubles to integers (-0.0 = 0.0)",
                      "assertions are compiled out (NDEBUG) as in the library build",
-                     "stores of different (trial, fold) tasks are atomic steps (their slots are proved disjoint)"]
+                     "stores of different (trial, fold) tasks are atomic steps (their slots are proved disjoint)",
+                     "stage SURR: exact rational arithmetic equals binary64 on the generated small dyadic inputs (checked: exact comparison on every line); "
+                     "PrimFloat = IEEE binary64 of the build (sub, abs, compare, div, mul, add)"]
     return r.finish("proof")
